@@ -78,6 +78,7 @@ type w2member struct {
 	subs     []string
 	session  time.Duration
 	rebal    time.Duration
+	lastLeft string // the member id this client last left the group with
 	needJoin bool
 	needSync bool
 	waitHB   int
@@ -453,8 +454,27 @@ func (w *w2) doLeave(m *w2member) *ev {
 		return resp
 	})
 	if e.answered && e.code == 0 {
+		m.lastLeft = m.memberID
 		m.needJoin, m.memberID = true, ""
 	}
+	return e
+}
+
+// doStaleLeave re-sends the LeaveGroup of an identity that has already left (a retried or delayed request).
+func (w *w2) doStaleLeave(m *w2member) *ev {
+	if m.lastLeft == "" {
+		return nil
+	}
+	e := w.record(&ev{kind: "leave", actor: m.id, group: m.group, reqMember: m.lastLeft, reqGen: m.gen, deviant: "stale-leave"})
+	req := kmsg.NewPtrLeaveGroupRequest()
+	req.Version, req.Group, req.MemberID = 2, m.group, m.lastLeft
+	w.rpc(func(c *GroupCoordinator, ctx context.Context) any {
+		resp := c.LeaveGroup(ctx, req)
+		e.code = resp.ErrorCode
+		w.reply(e)
+		return resp
+	})
+	w.sim.Probe("w2.stale-leave")
 	return e
 }
 
@@ -581,6 +601,8 @@ func (w *w2) memberOp(m *w2member, op simrt.Op) {
 		w.doHeartbeat(m, op.S)
 	case "leave":
 		w.doLeave(m)
+	case "stale-leave":
+		w.doStaleLeave(m)
 	case "commit":
 		w.doCommit(m, w2Topics[int(op.B)%len(w2Topics)], int32(op.C%3), op.S)
 	case "mcommit":
